@@ -7,7 +7,7 @@ import os, subprocess, select, time, re
 from . import core, threads
 
 TAG = re.compile(r"^P(\d+) (.*)$")
-BLOCK_WAIT = 0.6          # seconds without an answer, while another process is paused, after which a call counts as blocked on that process's lock
+BLOCK_WAIT = 0.25          # seconds without an answer, while another process is paused, after which a call counts as blocked on that process's lock
 
 
 class Proc:
@@ -19,6 +19,22 @@ class Proc:
 
     def send(self, text):
         self.p.stdin.write((text + "\n").encode("latin1")); self.p.stdin.flush()
+
+    def in_lock_wait(self):
+        """is the process sleeping inside fcntl (F_SETLKW: waiting for another process's file lock)?  /proc/<pid>/syscall starts with the system call number (x86-64: 72)"""
+        try: return open("/proc/%d/syscall" % self.p.pid).read().split()[0] == "72"
+        except (OSError, IndexError): return False
+
+    def read_or_blocked(self, timeout):
+        """like read_until, but returns ("blocked", None) as soon as the process is seen waiting for a file lock on four polls in a row — a fact about the process, not a guess
+        from elapsed time, so that the schedule (and the replay) is the same on a loaded machine"""
+        t_end = time.time() + timeout; streak = 0
+        while time.time() < t_end:
+            kind, val = self.read_until(0.004)
+            if kind != "timeout": return kind, val
+            streak = streak + 1 if self.in_lock_wait() else 0
+            if streak >= 4: return "blocked", None
+        return "timeout", None
 
     def read_until(self, timeout):
         """-> ("res", line) | ("paused", None) | ("timeout", None) | ("dead", rc); lines before the answer (the op echo) are skipped"""
@@ -57,19 +73,27 @@ def run_overlap(ops_text, workdir, variant="plain", env_extra=None, timeout=60):
             if i not in procs: procs[i] = Proc(i, variant, env, workdir)
             pr = procs[i]
             w = op.split()
-            if w[0] == "resume":
-                if pr.state == "paused":
-                    pr.send("resume")
-                    kind, val = pr.read_until(timeout)
-                    if kind != "res": rc = -9 if kind == "timeout" else (val or 70); break
-                    close(pr, val)
+            def resume_all():
+                nonlocal rc
+                for q in procs.values():
+                    if q.state == "paused":
+                        q.send("resume")
+                        kind, val = q.read_until(timeout)
+                        if kind != "res": rc = -9 if kind == "timeout" else (val or 70); return
+                        close(q, val)
                 for q in procs.values():           # whoever was waiting for a lock can finish now
                     if q.state == "blocked":
                         kind, val = q.read_until(timeout)
-                        if kind != "res": rc = -9 if kind == "timeout" else (val or 70); break
+                        if kind != "res": rc = -9 if kind == "timeout" else (val or 70); return
                         close(q, val)
+            if w[0] == "resume":
+                resume_all()
                 if rc: break
                 continue
+            if pr.state == "blocked":
+                # the process waits for a lock of the paused one: nothing more can happen inside the pause, the paused call goes on first
+                resume_all()
+                if rc: break
             if pr.state != "idle": rc = -8; break           # script error: the process is inside a call
             pr.send(op)
             if w[0] == "pauseat":
@@ -78,10 +102,10 @@ def run_overlap(ops_text, workdir, variant="plain", env_extra=None, timeout=60):
                 continue
             pr.call = {"tid": i, "op": op, "res": None, "start": stamp(), "end": None}; calls.append(pr.call)
             someone_paused = any(q.state == "paused" for q in procs.values())
-            kind, val = pr.read_until(BLOCK_WAIT if someone_paused else timeout)
+            kind, val = pr.read_or_blocked(timeout) if someone_paused else pr.read_until(timeout)
             if kind == "res": close(pr, val)
             elif kind == "paused": pr.state = "paused"; info["paused"] = True
-            elif kind == "timeout" and someone_paused: pr.state = "blocked"; info["blocked"] += 1
+            elif kind == "blocked" and someone_paused: pr.state = "blocked"; info["blocked"] += 1
             else: rc = -9 if kind == "timeout" else (val or 70); break
     finally:
         for pr in procs.values():
